@@ -40,6 +40,9 @@ ELEMENTS = [
     cls(SEQ), gen(SEQ, cls(2)), gen(SEQ, cls(3)), gen(LIST, cls(1)),                          # an origin above list: Sequence[...]; list[object]
     {"k": "metaof", "m": "M1", "cs": [2, 3]},                                                  # the metaclass of A (and so of B) used as an annotation
     {"k": "metaof", "m": "M1", "cs": [2, 3], "via": "base"},                                   # an ordinary class that metaclass inherits from (like an ABC)
+    # Exactly[type] (EXACTV variant only): of the classes passed there (A, B - whose class is the metaclass M1 - and C) it admits C.
+    # (list, dict, ... are admitted too in reality, but not their parametrisations: they are not passed in that variant)
+    {"k": "metaof", "m": "EXACT", "cs": [4]},
     {"k": "any"},
 ]
 
@@ -51,7 +54,7 @@ def py_subelem(anc, x, y):
     if x["k"] == "any":
         return py_subelem(anc, cls(1), y)
     if x["k"] == "metaof":
-        return (y["k"] == "cls" and y["c"] == 1) or x == y or (y["k"] == "metaof" and y["m"] == x["m"] and "via" in y and "via" not in x)
+        return (y["k"] == "cls" and y["c"] == 1 and "via" not in x) or x == y or (y["k"] == "metaof" and y["m"] == x["m"] and "via" in y and "via" not in x)
     if y["k"] == "metaof":
         return x["k"] == "cls" and x["c"] in y["cs"]
     if x["k"] == "cls" and y["k"] == "cls":
@@ -95,7 +98,8 @@ def gen_jobs(tier, seed):
     for q in range(n):
         with_inst = q % 3 == 0
         w, nty, inst = build_world(rng, with_inst)
-        tynodes = list(range(2, nty + 2))
+        tynodes = [n_ for n_ in range(2, nty + 2) if w["elements"][n_ - 1].get("m") != "EXACT"]
+        exact = next(n_ for n_ in range(2, nty + 2) if w["elements"][n_ - 1].get("m") == "EXACT")
         nm = rng.randint(2, 5)
         methods = []
         for j in range(nm):
@@ -184,6 +188,21 @@ def gen_jobs(tier, seed):
             methods[0]["depwrap"] = True
             w["methods"] = methods
             calls = [c for c in calls if not c["pos"][0].get("any")]
+        if q % 11 == 7 and not with_inst:
+            # EXACTV: Exactly[type] next to a plain object method - and, every other time, a type[...] method that admits none
+            # of the passed classes (it only changes how the argument is keyed); the Exactly method delegates
+            gens = [n_ for n_ in tynodes if w["elements"][n_ - 1]["k"] == "gen" and w["elements"][n_ - 1]["o"] == LIST]
+            methods = [worlds.mkmethod("m1", 1, [exact], body=rng.choice(["fnext", "next", "leaf"])), worlds.mkmethod("m2", 2, [1])]
+            if q % 2 == 0:
+                methods.append(worlds.mkmethod("m3", 3, [rng.choice(gens)]))
+            if q % 3 == 1:
+                # a plain object method of higher priority that delegates (f.next / call_next) down to the Exactly method
+                methods.append(worlds.mkmethod("m4", 4, [1], prio=1, body=rng.choice(["fnext", "next"])))
+            for m in methods:
+                m["bare"] = False
+            w["methods"] = methods
+            calls = [c for c in calls if not c["pos"][0].get("any")
+                     and w["elements"][c["pos"][0]["c"] - 1].get("k") in ("top", "cls") and w["elements"][c["pos"][0]["c"] - 1] in (cls(2), cls(3), cls(4))]
         jobs.append({"id": f"C14-{q}", "world": w, "calls": calls})
     return jobs
 
